@@ -14,7 +14,7 @@ import genlib as G
 
 F = "routee-compass-core/src/util/compact_ordered_hash_map.rs"
 IMPL = "impl<K: Hash + Ord + PartialEq + Clone, V: Clone> CompactOrderedHashMap<K, V>"
-OBLIGATIONS = ["empty", "len", "is_empty", "contains_key", "get", "get_index", "get_pair", "next", "insert", "insert_sequence_slots", "lemma_every_slot_owned", "lemma_onto", "lemma_inj_len"]
+OBLIGATIONS = ["empty", "len", "is_empty", "contains_key", "get", "get_index", "get_pair", "next", "insert", "insert_sequence_slots", "lemma_every_slot_owned", "lemma_onto", "lemma_inj_len", "keys", "lemma_incr_lb", "lemma_incr_ub", "lemma_incr_is_identity"]
 MUST_FAIL = ["vacuity_probe"]
 
 HEAD = """
@@ -174,6 +174,37 @@ pub proof fn insert_sequence_slots(before: CompactOrderedHashMap<K, V>, after: C
         after.index_of().contains_key(k),
         !before.index_of().contains_key(k) ==> after.index_of()[k] == before.size(),
 {}
+
+// ===== keys(): the keys in slot order (what Graph::out_edges / in_edges and every `for k in map.keys()` rely on) =====
+// rule R3-dyn: `KeyIterator<K>` = Box<dyn Iterator<Item = &K>> is represented by an opaque iterator with a ghost sequence of the keys it will yield
+#[verifier::external_body] pub struct KeyIter<'a> { _p: core::marker::PhantomData<&'a u8> }
+impl<'a> KeyIter<'a> {
+    pub uninterp spec fn seq(&self) -> Seq<K>;
+    // `Box::new([a, b, ..].into_iter())`: yields the elements of the array in order (assumed: array iteration order)
+    #[verifier::external_body] pub fn of<const N: usize>(a: [&'a K; N]) -> (r: KeyIter<'a>)
+        ensures r.seq().len() == N, forall|i: int| 0 <= i < N ==> #[trigger] r.seq()[i] == *a@[i] { unimplemented!() }
+}
+// ASSUMED (itertools): `map.iter().sorted_by_key(|(_, v)| v.index).map(|(k, _)| k)` yields every key of the map exactly once, ordered by ascending index
+#[verifier::external_body] pub fn verif_keys_sorted_by_index<'a>(map: &'a HashMap<K, IndexedEntry<V>>) -> (r: KeyIter<'a>)
+    ensures r.seq().len() == map@.len(), r.seq().no_duplicates(),
+            forall|i: int| 0 <= i < r.seq().len() ==> map@.contains_key(#[trigger] r.seq()[i]),
+            forall|i: int, j: int| 0 <= i < j < r.seq().len() ==> map@[r.seq()[i]].index <= map@[r.seq()[j]].index,
+{ unimplemented!() }
+/// a strictly increasing sequence of n naturals below n is 0, 1, .., n-1 (two inductions)
+pub proof fn lemma_incr_lb(a: Seq<nat>, i: int)
+    requires 0 <= i < a.len(), forall|p: int, q: int| 0 <= p < q < a.len() ==> a[p] < a[q]
+    ensures a[i] >= i
+    decreases i
+{ if i > 0 { lemma_incr_lb(a, i - 1); } }
+pub proof fn lemma_incr_ub(a: Seq<nat>, i: int)
+    requires 0 <= i < a.len(), forall|p: int, q: int| 0 <= p < q < a.len() ==> a[p] < a[q]
+    ensures a[i] + (a.len() - 1 - i) <= a[a.len() - 1]
+    decreases a.len() - i
+{ if i < a.len() - 1 { lemma_incr_ub(a, i + 1); } }
+pub proof fn lemma_incr_is_identity(a: Seq<nat>, i: int)
+    requires 0 <= i < a.len(), forall|p: int| 0 <= p < a.len() ==> a[p] < a.len(), forall|p: int, q: int| 0 <= p < q < a.len() ==> a[p] < a[q]
+    ensures a[i] == i
+{ lemma_incr_lb(a, i); lemma_incr_ub(a, i); }
 """
 
 
@@ -222,6 +253,27 @@ def build(x):
             r is None ==> !self.has_slot(index as nat),""")
     gp.rewrite(r"indexed\s*\.iter\(\)\s*\.find\(\|\(_, f\)\| f\.index == index\)\s*\.map\(\|\(k, entry\)\| \(k, &entry\.v\)\)", "verif_find_slot(indexed, index)", 1, 1, rule="R-collect")
     x.note("R-collect", "get_pair (NEntries): `indexed.iter().find(|(_, f)| f.index == index).map(|(k, entry)| (k, &entry.v))` written verif_find_slot(indexed, index) (assumed: the first entry whose index is `index`, None only if there is none)")
+    ky = fn("keys", """        requires self.wf(),
+        ensures
+            // C11 / C15: keys() yields every key exactly once, the key that owns slot i at position i ("iteration by ascending index"; adjacency lists list every incident edge)
+            r.seq().len() == self.size(),
+            forall|i: int| 0 <= i < self.size() ==> self.index_of().contains_key(#[trigger] r.seq()[i]) && self.index_of()[r.seq()[i]] == i,""")
+    ky.rewrite(r"KeyIterator<K>", "KeyIter<'_>", 1, 1, rule="R3-dyn")
+    ky.rewrite(r"Box::new\(\[([^\]]*)\]\.into_iter\(\)\)", r"KeyIter::of([\1])", 1, 4, rule="R3-dyn")
+    ky.rewrite(r"let keys = map\.iter\(\)\.sorted_by_key\(\|\(_, v\)\| v\.index\)\.map\(\|\(k, _\)\| k\);\s*Box::new\(keys\)", "let keys = verif_keys_sorted_by_index(map);\n                /*verif:keys-hint*/\n                keys", 1, 1, rule="R-collect")
+    x.note("R3-dyn", "keys: `KeyIterator<K>` (Box<dyn Iterator<Item = &K>>) written KeyIter (opaque, ghost sequence); `Box::new([k1, ..].into_iter())` written KeyIter::of([k1, ..])")
+    x.note("R-collect", "keys (NEntries): `map.iter().sorted_by_key(|(_, v)| v.index).map(|(k, _)| k)` written verif_keys_sorted_by_index(map) (assumed: every key once, by ascending index)")
+    ky.insert_after(r"/\*verif:keys-hint\*/", """
+                proof {
+                    let sq = keys.seq(); let n = sq.len() as int;
+                    let a = Seq::new(sq.len(), |i: int| map@[sq[i]].index as nat);
+                    assert forall|p: int| 0 <= p < n implies a[p] < n by { assert(self.index_of().contains_key(sq[p])); }
+                    assert forall|p: int, q: int| 0 <= p < q < n implies a[p] < a[q] by {
+                        assert(self.index_of().contains_key(sq[p]) && self.index_of().contains_key(sq[q]));
+                        assert(sq[p] != sq[q]);
+                    }
+                    assert forall|i: int| 0 <= i < n implies self.index_of().contains_key(#[trigger] sq[i]) && self.index_of()[sq[i]] == i by { lemma_incr_is_identity(a, i); }
+                }""")
     ins = fn("insert", """        requires old(self).wf(), old(self).size() < usize::MAX - 1,
         ensures
             final(self).wf(),
